@@ -25,6 +25,14 @@ CHECKS = {
              "compared with the native expression. Exhaustive over the stated finite matrix, sampling beyond it.",
         note="trusts g++ -O2 on x86-64 as the reference semantics; UB-without-trap inputs are excluded by predicate (counted in evidence)",
         design="4/C05"),
+    "C12": dict(
+        engine="hypothesis-runner",
+        category="exploration",
+        technique="model-based stateful property testing (Hypothesis-generated operation sequences vs Python list/dict/str models), ASan/UBSan on",
+        text="Operation sequences with boundary indices on a live engine; after every step the result (or 'raised') and a full scan of every "
+             "container are compared with the model; any sanitizer report or crash is a violation.",
+        note="the Python models of std::vector/map/string semantics are mine; range views only while the container is not structurally modified",
+        design="4/C12"),
     "C16": dict(
         engine="hypothesis-runner",
         category="exploration",
